@@ -142,6 +142,18 @@ def gen_case(chk, i):
         for ops in secs:
             k = len(ops) - 1 - ops[::-1].index("free")
             ops.insert(k, "barrier")
+    if i % 40 == 17:
+        # one thread keeps emitting while another is silent for more than 2^31 ns (and,
+        # in the other case of the tier, more than 2^32 ns): real clocks, real sleeps
+        gap = 3200000 if (i // 40) % 2 == 0 else 4700000
+        a = ["init 500", "vercheck", "cpu 0 0", "cpu 1 1", "require nosv 2.0.0", "ev OHx now %s" % obs.i32(0, 500, 0).hex()]
+        for _ in range(gap // 100000 + 8):
+            a += ["ev OB. now -", "usleep 100000"]
+        a += ["ev OHe now -", "flush", "free"]
+        b = ["init 501", "vercheck", "require nosv 2.0.0", "ev OHx now %s" % obs.i32(1, 501, 0).hex(), "ev OB. now 0102",
+             "usleep %d" % gap, "ev OB. now 0304", "ev OHe now -", "flush", "free"]
+        secs, nth, mode = [a, b], 2, "gap"
+        infos = [{"targets": []}]
     out = ["proc 1 node%d %d" % (i % 3, 400)]
     for ops in secs:
         out.append("thread"); out.extend(ops); out.append("end")
